@@ -9,12 +9,13 @@ Liveness is checked as bounded response under a fairness assumption on the PHY (
 two cycles).
 
 FINDINGS (genuine defects, not fixed in /repo: recorded in known_findings.json, each with a scenario predicate kf_*
-that is 1 only after its triggering coincidence and until the bus has been clean again; violations outside the
-scenarios are still reported):
+that is 1 only from its triggering coincidence on; violations in runs without such a coincidence (all of bmc_startup,
+and every run up to its first coincidence) are still reported):
   A. tx_and_regwrite_same_cycle_deadlock -- a transmission that is waiting to start (tx_valid, DIR low) in the cycle in
      which the control translator requests a write: ulpi_out_req is latched, control_translator.busy (registered) then
      removes bus_idle from the transmitter, the data mux gives the silent transmitter priority over the register
-     window: neither the TXCMD nor the RegWrite ever reaches the bus (viol tx_progress).  Reached from reset with the
+     window: neither the TXCMD nor the RegWrite ever reaches the bus (viol tx_progress); in other interleavings of
+     the same race the write runs under/after the transmission as in B.  Reached from reset with the
      ordinary full-speed setting (xcvr_select=1, term_select=1) and tx_valid from step 0, and whenever tx_valid waits
      while the second of two register writes is requested.
   B. regwrite_requested_during_txcmd -- a control input changes while the TXCMD byte is on the bus (the transmitter
@@ -165,8 +166,10 @@ class CtrlHarness(Harness):
             d += txw.eq(txw + 1)
         m.d.comb += v["tx_progress"].eq(txw == TX_BOUND)
 
-        # ---- scenario predicates of the recorded findings: sticky since the triggering coincidence, cleared once the
-        # bus has been demonstrably clean again (registers equal the request, nothing on the bus) for 4 cycles
+        # ---- scenario predicates of the recorded findings: sticky from the triggering coincidence to the end of the
+        # bounded run.  (They cannot be cleared on an externally clean bus: the defects corrupt the control
+        # translator's hidden shadow registers, which makes later writes go wrong although PHY registers and request
+        # agreed in between -- seen in a replay when clearing was tried.)
         write_wanted = Signal(name="write_wanted")
         inflight_w = Signal(name="inflight_w")
         m.d.comb += [
@@ -188,18 +191,10 @@ class CtrlHarness(Harness):
             # control inputs change (from the third cycle on) while a write is wanted or on the bus
             "control_input_changed_while_write_in_flight": changed & (age >= 2) & p_pending,
         }
-        clean = ~write_wanted & ~inflight_w & ~tx_valid & ~dir_ & phy.in_state(phy.IDLE) & ~phy.cmd_present & ~changed
-        clean_run = Signal(3, name="clean_run")
-        with m.If(~clean):
-            d += clean_run.eq(0)
-        with m.Elif(clean_run != 4):
-            d += clean_run.eq(clean_run + 1)
         for n, s_now in set_now.items():
             flag = Signal(name=f"kfreg_{n}")
             with m.If(s_now):
                 d += flag.eq(1)
-            with m.Elif(clean_run == 4):
-                d += flag.eq(0)
             m.d.comb += self.kfs[n].eq(flag | s_now)
 
         # ---- covers
